@@ -3,25 +3,28 @@ import S3V.Spec.Policy
 /-!
 # Lemmas: the policy reader against the IAM grammar
 
-* `policy_fold`, `stmt_fold`: the two derived `visit_map` loops, member by member, equal "one slot per
-  known name, filled at most once" (`slot`) plus the buffer of the other members (`others`);
+* `policy_fold`, `stmt_fold`: the two `visit_map` loops, member by member, equal "one slot per block,
+  filled at most once" (`slot`): per known name for `Policy` and for `Sid`/`Effect`/`Condition`, per
+  pair of names for the principal, action and resource block of a statement;
 * value level: each reader accepts exactly the grammar's values (`…_some_iff`) and writing the value
   read gives the JSON back (`…Json_of_…`);
 * `fromJson?_of_grammar`: a document of the (string-valued) grammar is accepted, and re-encodes to
   `canon` of itself when no name repeats inside its maps;
-* `grammar_of_fromJson?`: an accepted document outside the `quirk` regions is in the grammar;
+* `grammar_of_fromJson?`: an accepted document outside the (two remaining) `quirk` regions is in the
+  grammar;
 * `violation_mono`: the string-valued grammar lies inside the published one.
 -/
 namespace S3V.Policy
 open S3V S3V.PolicySpec
 
-/-- what the dup-checked loop leaves in one field: `cur` is the slot's content so far -/
-def slot {α : Type} (f : Json → Option α) : Option α → List Json → Option (Option α)
+/-- what the dup-checked loop leaves in one slot: `cur` is the slot's content so far, the list holds
+    the members (or their values) that go to this slot, in document order -/
+def slot {α β : Type} (f : β → Option α) : Option α → List β → Option (Option α)
   | cur, [] => some cur
   | none, v :: rest => (f v).bind fun x => slot f (some x) rest
   | some _, _ :: _ => none
 
-theorem slot_none_eq {α : Type} (f : Json → Option α) (vs : List Json) :
+theorem slot_none_eq {α β : Type} (f : β → Option α) (vs : List β) :
     slot f none vs = match vs with
       | [] => some none
       | [v] => (f v).map some
@@ -81,23 +84,34 @@ theorem policy_fold (ms : List (Bytes × Json)) : ∀ acc : PolAcc,
         · rw [policyField_other _ _ _ h1 h2 h3]
           simp [valuesOf_cons, h1, h2, h3, ih]
 
-/-- the members `Statement::visit_map` buffers for the flattened fields -/
-def others (ms : List (Bytes × Json)) : List (Bytes × Json) :=
-  ms.filter fun kv => !(decide (kv.1 = kSid) || decide (kv.1 = kEffect) || decide (kv.1 = kCondition))
+theorem membersOf2_cons (a b k : Bytes) (v : Json) (ms : List (Bytes × Json)) :
+    membersOf2 a b ((k, v) :: ms) = if k = a ∨ k = b then (k, v) :: membersOf2 a b ms else membersOf2 a b ms := by
+  unfold membersOf2
+  by_cases h1 : k = a <;> by_cases h2 : k = b <;> simp [h1, h2]
 
-theorem others_cons (k : Bytes) (v : Json) (ms : List (Bytes × Json)) :
-    others ((k, v) :: ms) = if k = kSid ∨ k = kEffect ∨ k = kCondition then others ms else (k, v) :: others ms := by
-  unfold others
-  by_cases h1 : k = kSid <;> by_cases h2 : k = kEffect <;> by_cases h3 : k = kCondition <;> simp [h1, h2, h3]
+/-- what `Statement::visit_map` makes of a member of the principal block: the value through the
+    reader of `Principal`, wrapped by the variant the name selects -/
+def principalMemberOf (kv : Bytes × Json) : Option PrincipalRule :=
+  (principalOfJson kv.2).map fun p => if kv.1 = kPrincipal then .principal p else .notPrincipal p
 
+def actionMemberOf (kv : Bytes × Json) : Option ActionRule :=
+  (woomOfJson kv.2).map fun w => if kv.1 = kAction then .action w else .notAction w
+
+def resourceMemberOf (kv : Bytes × Json) : Option ResourceRule :=
+  (woomOfJson kv.2).map fun w => if kv.1 = kResource then .resource w else .notResource w
+
+/-- the loop of `Statement::visit_map` is six independent slots -/
 theorem stmt_fold (ms : List (Bytes × Json)) : ∀ acc : StAcc,
     ms.foldlM stmtField acc =
       (slot optString acc.sid (valuesOf kSid ms)).bind fun s =>
+      (slot principalMemberOf acc.principal (membersOf2 kPrincipal kNotPrincipal ms)).bind fun p =>
       (slot (unitEnum effectOfName) acc.effect (valuesOf kEffect ms)).bind fun e =>
+      (slot actionMemberOf acc.action (membersOf2 kAction kNotAction ms)).bind fun a =>
+      (slot resourceMemberOf acc.resource (membersOf2 kResource kNotResource ms)).bind fun r =>
       (slot optCondition acc.condition (valuesOf kCondition ms)).bind fun c =>
-      some ⟨s, e, c, acc.collect ++ others ms⟩ := by
+      some ⟨s, p, e, a, r, c⟩ := by
   induction ms with
-  | nil => intro acc; simp [valuesOf, slot, others]
+  | nil => intro acc; simp [valuesOf, membersOf2, slot]
   | cons e ms ih =>
     intro acc
     obtain ⟨k, v⟩ := e
@@ -105,48 +119,95 @@ theorem stmt_fold (ms : List (Bytes × Json)) : ∀ acc : StAcc,
     by_cases h1 : k = kSid
     · subst h1
       rw [stmtField_sid]
-      simp only [valuesOf_cons, others_cons, true_or, if_true, show ¬ kSid = kEffect by decide, show ¬ kSid = kCondition by decide, if_false]
+      simp (config := { decide := true }) only [valuesOf_cons, membersOf2_cons, if_true, if_false]
       cases hv : acc.sid with
       | some x => simp [slot]
       | none =>
         cases hf : optString v with
         | none => simp [slot, hf]
         | some y => simp [slot, hf, ih]
-    · by_cases h2 : k = kEffect
-      · subst h2
-        rw [stmtField_effect]
-        simp only [valuesOf_cons, others_cons, true_or, or_true, if_true, show ¬ kEffect = kSid by decide, show ¬ kEffect = kCondition by decide, if_false]
-        cases hv : acc.effect with
-        | some x => simp [slot]
-        | none =>
-          cases hf : unitEnum effectOfName v with
-          | none => simp [slot, hf]
-          | some y => simp [slot, hf, ih]
-      · by_cases h3 : k = kCondition
-        · subst h3
-          rw [stmtField_condition]
-          simp only [valuesOf_cons, others_cons, or_true, if_true, show ¬ kCondition = kSid by decide, show ¬ kCondition = kEffect by decide, if_false]
-          cases hv : acc.condition with
-          | some x => simp [slot]
-          | none =>
-            cases hf : optCondition v with
-            | none => simp [slot, hf]
-            | some y => simp [slot, hf, ih]
-        · rw [stmtField_other _ _ _ h1 h2 h3]
-          simp [valuesOf_cons, others_cons, h1, h2, h3, ih]
-
-theorem takeVariant_others (a b : Bytes) (ha : a ≠ kSid ∧ a ≠ kEffect ∧ a ≠ kCondition)
-    (hb : b ≠ kSid ∧ b ≠ kEffect ∧ b ≠ kCondition) (ms : List (Bytes × Json)) :
-    takeVariant a b (others ms) = (membersOf2 a b ms).head? := by
-  unfold takeVariant others membersOf2
-  rw [List.find?_filter, List.head?_filter]
-  congr 1
-  funext kv
-  by_cases h1 : kv.1 = a
-  · simp [h1, ha.1, ha.2.1, ha.2.2]
-  · by_cases h2 : kv.1 = b
-    · simp [h2, hb.1, hb.2.1, hb.2.2]
-    · simp [h1, h2]
+    by_cases h2 : k = kPrincipal
+    · subst h2
+      rw [stmtField_principal]
+      simp (config := { decide := true }) only [valuesOf_cons, membersOf2_cons, if_true, if_false]
+      cases hv : acc.principal with
+      | some x => simp [slot]
+      | none =>
+        cases hf : principalOfJson v with
+        | none => simp [slot, principalMemberOf, hf]
+        | some y => simp [slot, principalMemberOf, hf, ih]
+    by_cases h3 : k = kNotPrincipal
+    · subst h3
+      rw [stmtField_notPrincipal]
+      simp (config := { decide := true }) only [valuesOf_cons, membersOf2_cons, if_true, if_false]
+      cases hv : acc.principal with
+      | some x => simp [slot]
+      | none =>
+        cases hf : principalOfJson v with
+        | none => simp [slot, principalMemberOf, hf]
+        | some y => simp (config := { decide := true }) [slot, principalMemberOf, hf, ih]
+    by_cases h4 : k = kEffect
+    · subst h4
+      rw [stmtField_effect]
+      simp (config := { decide := true }) only [valuesOf_cons, membersOf2_cons, if_true, if_false]
+      cases hv : acc.effect with
+      | some x => simp [slot]
+      | none =>
+        cases hf : unitEnum effectOfName v with
+        | none => simp [slot, hf]
+        | some y => simp [slot, hf, ih]
+    by_cases h5 : k = kAction
+    · subst h5
+      rw [stmtField_action]
+      simp (config := { decide := true }) only [valuesOf_cons, membersOf2_cons, if_true, if_false]
+      cases hv : acc.action with
+      | some x => simp [slot]
+      | none =>
+        cases hf : woomOfJson v with
+        | none => simp [slot, actionMemberOf, hf]
+        | some y => simp [slot, actionMemberOf, hf, ih]
+    by_cases h6 : k = kNotAction
+    · subst h6
+      rw [stmtField_notAction]
+      simp (config := { decide := true }) only [valuesOf_cons, membersOf2_cons, if_true, if_false]
+      cases hv : acc.action with
+      | some x => simp [slot]
+      | none =>
+        cases hf : woomOfJson v with
+        | none => simp [slot, actionMemberOf, hf]
+        | some y => simp (config := { decide := true }) [slot, actionMemberOf, hf, ih]
+    by_cases h7 : k = kResource
+    · subst h7
+      rw [stmtField_resource]
+      simp (config := { decide := true }) only [valuesOf_cons, membersOf2_cons, if_true, if_false]
+      cases hv : acc.resource with
+      | some x => simp [slot]
+      | none =>
+        cases hf : woomOfJson v with
+        | none => simp [slot, resourceMemberOf, hf]
+        | some y => simp [slot, resourceMemberOf, hf, ih]
+    by_cases h8 : k = kNotResource
+    · subst h8
+      rw [stmtField_notResource]
+      simp (config := { decide := true }) only [valuesOf_cons, membersOf2_cons, if_true, if_false]
+      cases hv : acc.resource with
+      | some x => simp [slot]
+      | none =>
+        cases hf : woomOfJson v with
+        | none => simp [slot, resourceMemberOf, hf]
+        | some y => simp (config := { decide := true }) [slot, resourceMemberOf, hf, ih]
+    by_cases h9 : k = kCondition
+    · subst h9
+      rw [stmtField_condition]
+      simp (config := { decide := true }) only [valuesOf_cons, membersOf2_cons, if_true, if_false]
+      cases hv : acc.condition with
+      | some x => simp [slot]
+      | none =>
+        cases hf : optCondition v with
+        | none => simp [slot, hf]
+        | some y => simp [slot, hf, ih]
+    rw [stmtField_other _ _ _ ⟨h1, h2, h3, h4, h5, h6, h7, h8, h9⟩]
+    simp [valuesOf_cons, membersOf2_cons, h1, h2, h3, h4, h5, h6, h7, h8, h9, ih]
 
 
 /-! ## value level: what each reader accepts, and that writing gives the value back -/
@@ -502,7 +563,7 @@ theorem grammar_of_effect (v : Json) (e : Effect) (h : unitEnum effectOfName v =
 
 /-! ### blocks: at most one / exactly one -/
 
-theorem slot_none_some_iff {α : Type} (f : Json → Option α) (vs : List Json) (r : Option α) :
+theorem slot_none_some_iff {α β : Type} (f : β → Option α) (vs : List β) (r : Option α) :
     slot f none vs = some r ↔ (vs = [] ∧ r = none) ∨ (∃ v x, vs = [v] ∧ f v = some x ∧ r = some x) := by
   rw [slot_none_eq]
   match vs with
@@ -552,80 +613,77 @@ theorem grammar_of_slot_opt {α : Type} (f : Json → Option (Option α)) (g : J
 theorem statementOfMembers_eq (ms : List (Bytes × Json)) :
     statementOfMembers ms =
       (slot optString none (valuesOf kSid ms)).bind fun sid =>
+      (slot principalMemberOf none (membersOf2 kPrincipal kNotPrincipal ms)).bind fun pr =>
       (slot (unitEnum effectOfName) none (valuesOf kEffect ms)).bind fun ef =>
+      (slot actionMemberOf none (membersOf2 kAction kNotAction ms)).bind fun ac =>
+      (slot resourceMemberOf none (membersOf2 kResource kNotResource ms)).bind fun re =>
       (slot optCondition none (valuesOf kCondition ms)).bind fun co =>
       ef.bind fun effect =>
-      (actionRuleOf (others ms)).bind fun action =>
-      (resourceRuleOf (others ms)).bind fun resource =>
-      some { sid := sid.getD none, principal := principalRuleOf (others ms), effect := effect,
+      ac.bind fun action =>
+      re.bind fun resource =>
+      some { sid := sid.getD none, principal := pr, effect := effect,
              action := action, resource := resource, condition := co.getD none } := by
   unfold statementOfMembers
   rw [stmt_fold]
-  simp only [Option.bind_assoc, Option.bind_some, List.nil_append]
+  simp only [Option.bind_assoc, Option.bind_some]
 
 theorem mem_membersOf2 (a b : Bytes) (ms : List (Bytes × Json)) (kv : Bytes × Json)
     (h : kv ∈ membersOf2 a b ms) : kv.1 = a ∨ kv.1 = b := by
   simpa [membersOf2] using (List.mem_filter.mp h).2
 
-theorem rule_of_grammar {ρ : Type} (a b : Bytes) (mk : Bytes → WildcardOneOrMore Bytes → ρ)
+/-- an action / resource block the grammar accepts fills its slot, and is written back as it stood -/
+theorem rule_of_grammar {ρ : Type} (a b : Bytes) (read : Bytes × Json → Option ρ)
+    (mk : Bytes → WildcardOneOrMore Bytes → ρ) (hread : ∀ kv, read kv = (woomOfJson kv.2).map (mk kv.1))
     (member : ρ → Bytes × Json) (hmember : ∀ k w, k = a ∨ k = b → member (mk k w) = (k, woomJson w))
     (shape missing : Viol) (ms : List (Bytes × Json))
-    (ha : a ≠ kSid ∧ a ≠ kEffect ∧ a ≠ kCondition) (hb : b ≠ kSid ∧ b ≠ kEffect ∧ b ≠ kCondition)
     (h : exactlyOne missing (ruleMemberViol shape) .conflictingMembers (membersOf2 a b ms) = none) :
-    ∃ r, (match takeVariant a b (others ms) with
-          | none => none
-          | some (k, v) => (woomOfJson v).map fun w => mk k w) = some r ∧ [member r] = membersOf2 a b ms := by
+    ∃ r, slot read none (membersOf2 a b ms) = some (some r) ∧ [member r] = membersOf2 a b ms := by
   obtain ⟨kv, hm, hv⟩ := (exactlyOne_none_iff _ _ _ _).mp h
   have hk := mem_membersOf2 a b ms kv (by rw [hm]; simp)
-  rw [takeVariant_others a b ha hb, hm]
+  rw [hm]
   have hs : strOrStrs kv.2 = true := by
     unfold ruleMemberViol at hv
     by_cases hh : strOrStrs kv.2 = true
     · exact hh
     · simp [hh] at hv
   obtain ⟨w, hw⟩ := (woomOfJson_some_iff kv.2).mpr hs
-  refine ⟨mk kv.1 w, by simp [hw], ?_⟩
+  refine ⟨mk kv.1 w, by simp [slot, hread, hw], ?_⟩
   rw [hmember _ _ hk, woomJson_of_woomOfJson _ _ hw]
 
-theorem grammar_of_rule {ρ : Type} (a b : Bytes) (mk : Bytes → WildcardOneOrMore Bytes → ρ)
-    (shape missing : Viol) (ms : List (Bytes × Json))
-    (ha : a ≠ kSid ∧ a ≠ kEffect ∧ a ≠ kCondition) (hb : b ≠ kSid ∧ b ≠ kEffect ∧ b ≠ kCondition) (r : ρ)
-    (h : (match takeVariant a b (others ms) with
-          | none => none
-          | some (k, v) => (woomOfJson v).map fun w => mk k w) = some r)
-    (hq : ¬ 2 ≤ (membersOf2 a b ms).length) :
+/-- a filled action / resource slot means: exactly one block under the two names, with a value of the
+    grammar (no exception any more: a second block is refused by the reader) -/
+theorem grammar_of_rule {ρ : Type} (a b : Bytes) (read : Bytes × Json → Option ρ)
+    (mk : Bytes → WildcardOneOrMore Bytes → ρ) (hread : ∀ kv, read kv = (woomOfJson kv.2).map (mk kv.1))
+    (shape missing : Viol) (ms : List (Bytes × Json)) (r : ρ)
+    (h : slot read none (membersOf2 a b ms) = some (some r)) :
     exactlyOne missing (ruleMemberViol shape) .conflictingMembers (membersOf2 a b ms) = none := by
-  rw [takeVariant_others a b ha hb] at h
-  match hm : membersOf2 a b ms with
-  | [] => simp [hm] at h
-  | [kv] =>
-    rw [hm] at h
-    simp only [List.head?_cons] at h
+  rcases (slot_none_some_iff read _ _).mp h with ⟨_, hh⟩ | ⟨kv, x, hm, hx, _⟩
+  · cases hh
+  · rw [hm]
+    rw [hread] at hx
     cases hw : woomOfJson kv.2 with
-    | none => simp [hw] at h
+    | none => simp [hw] at hx
     | some w =>
       have := (woomOfJson_some_iff kv.2).mp ⟨w, hw⟩
       simp [exactlyOne, ruleMemberViol, this]
-  | _ :: _ :: _ => simp [hm] at hq
 
-theorem actionRuleOf_eq (c : List (Bytes × Json)) :
-    actionRuleOf c = match takeVariant kAction kNotAction c with
-      | none => none
-      | some (k, v) => (woomOfJson v).map fun w => (fun k w => if k = kAction then ActionRule.action w else .notAction w) k w := rfl
+theorem actionMember_mk (k : Bytes) (w : WildcardOneOrMore Bytes) (hk : k = kAction ∨ k = kNotAction) :
+    actionMember (if k = kAction then ActionRule.action w else .notAction w) = (k, woomJson w) := by
+  rcases hk with rfl | rfl <;> simp [actionMember, kAction, kNotAction]
 
-theorem resourceRuleOf_eq (c : List (Bytes × Json)) :
-    resourceRuleOf c = match takeVariant kResource kNotResource c with
-      | none => none
-      | some (k, v) => (woomOfJson v).map fun w => (fun k w => if k = kResource then ResourceRule.resource w else .notResource w) k w := rfl
+theorem resourceMember_mk (k : Bytes) (w : WildcardOneOrMore Bytes) (hk : k = kResource ∨ k = kNotResource) :
+    resourceMember (if k = kResource then ResourceRule.resource w else .notResource w) = (k, woomJson w) := by
+  rcases hk with rfl | rfl <;> simp [resourceMember, kResource, kNotResource]
 
+/-- a principal block the grammar accepts (or none) fills the slot accordingly, and is written back as
+    it stood -/
 theorem principal_of_grammar (ms : List (Bytes × Json))
-    (h : atMostOne principalMemberViol .conflictingMembers (membersOf2 kPrincipal kNotPrincipal ms) = none)
-    (hu : ∀ kv ∈ membersOf2 kPrincipal kNotPrincipal ms, objNamesUnique kv.2 = true) :
-    principalMembers (principalRuleOf (others ms)) = membersOf2 kPrincipal kNotPrincipal ms := by
-  unfold principalRuleOf
-  rw [takeVariant_others _ _ (by decide) (by decide)]
+    (h : atMostOne principalMemberViol .conflictingMembers (membersOf2 kPrincipal kNotPrincipal ms) = none) :
+    ∃ pr, slot principalMemberOf none (membersOf2 kPrincipal kNotPrincipal ms) = some pr ∧
+      ((∀ kv ∈ membersOf2 kPrincipal kNotPrincipal ms, objNamesUnique kv.2 = true) →
+        principalMembers pr = membersOf2 kPrincipal kNotPrincipal ms) := by
   rcases (atMostOne_none_iff _ _ _).mp h with hm | ⟨kv, hm, hv⟩
-  · simp [hm, principalMembers]
+  · exact ⟨none, by simp [hm, slot], fun _ => by simp [hm, principalMembers]⟩
   · have hk := mem_membersOf2 _ _ ms kv (by rw [hm]; simp)
     have hs : principalValueOk kv.2 = true := by
       unfold principalMemberViol at hv
@@ -633,27 +691,30 @@ theorem principal_of_grammar (ms : List (Bytes × Json))
       · exact hh
       · simp [hh] at hv
     obtain ⟨p, hp⟩ := (principalOfJson_some_iff kv.2).mpr hs
-    have hj := principalJson_of_principalOfJson _ _ hp (hu kv (by rw [hm]; simp))
     rw [hm]
+    refine ⟨some (if kv.1 = kPrincipal then .principal p else .notPrincipal p),
+      by simp [slot, principalMemberOf, hp], fun hu => ?_⟩
+    have hj := principalJson_of_principalOfJson _ _ hp (hu kv (by simp))
     obtain ⟨k, v⟩ := kv
-    simp only at hk hp hj
-    simp only [List.head?_cons, hp]
+    simp only at hk hj
     rcases hk with rfl | rfl
     · simp [principalMembers, hj]
     · simp [principalMembers, hj, kPrincipal, kNotPrincipal]
 
-theorem grammar_of_principal (ms : List (Bytes × Json))
-    (hq1 : ¬ 2 ≤ (membersOf2 kPrincipal kNotPrincipal ms).length)
-    (hq2 : (membersOf2 kPrincipal kNotPrincipal ms).any (fun kv => !principalValueOk kv.2) = false) :
+/-- a principal slot that came out of the loop means: at most one block under the two names, and its
+    value is of the grammar (no exception any more: a second block and a malformed value are refused) -/
+theorem grammar_of_principal (ms : List (Bytes × Json)) (pr : Option PrincipalRule)
+    (h : slot principalMemberOf none (membersOf2 kPrincipal kNotPrincipal ms) = some pr) :
     atMostOne principalMemberViol .conflictingMembers (membersOf2 kPrincipal kNotPrincipal ms) = none := by
-  match hm : membersOf2 kPrincipal kNotPrincipal ms with
-  | [] => rfl
-  | [kv] =>
-    rw [hm] at hq2
-    simp at hq2
-    simp [atMostOne, principalMemberViol, hq2]
-  | _ :: _ :: _ => simp [hm] at hq1
-
+  rcases (slot_none_some_iff principalMemberOf _ _).mp h with ⟨hm, _⟩ | ⟨kv, x, hm, hx, _⟩
+  · rw [hm]; rfl
+  · rw [hm]
+    unfold principalMemberOf at hx
+    cases hp : principalOfJson kv.2 with
+    | none => simp [hp] at hx
+    | some p =>
+      have := (principalOfJson_some_iff kv.2).mp ⟨p, hp⟩
+      simp [atMostOne, principalMemberViol, this]
 
 theorem statement_of_grammar (ms : List (Bytes × Json)) (h : stmtViol false (.obj ms) = none) :
     ∃ s, statementOfMembers ms = some s ∧
@@ -670,47 +731,46 @@ theorem statement_of_grammar (ms : List (Bytes × Json)) (h : stmtViol false (.o
     (fun v => conditionNamesUnique v = true) .dupMember _ (fun v hv => by
       obtain ⟨c, hc⟩ := (optCondition_some_iff v).mpr hv
       exact ⟨c, hc, fun hu => optConditionJson_of_optCondition _ _ hc hu⟩) rfl h6
-  obtain ⟨a, ha, hma⟩ := rule_of_grammar kAction kNotAction
-    (fun k w => if k = kAction then ActionRule.action w else .notAction w) actionMember
-    (by rintro k w (rfl | rfl) <;> simp [actionMember, kAction, kNotAction])
-    .actionShape .actionMissing ms (by decide) (by decide) h4
-  obtain ⟨r, hr, hmr⟩ := rule_of_grammar kResource kNotResource
-    (fun k w => if k = kResource then ResourceRule.resource w else .notResource w) resourceMember
-    (by rintro k w (rfl | rfl) <;> simp [resourceMember, kResource, kNotResource])
-    .resourceShape .resourceMissing ms (by decide) (by decide) h5
-  rw [← actionRuleOf_eq] at ha
-  rw [← resourceRuleOf_eq] at hr
+  obtain ⟨a, ha, hma⟩ := rule_of_grammar kAction kNotAction actionMemberOf
+    (fun k w => if k = kAction then ActionRule.action w else .notAction w) (fun _ => rfl) actionMember
+    actionMember_mk .actionShape .actionMissing ms h4
+  obtain ⟨r, hr, hmr⟩ := rule_of_grammar kResource kNotResource resourceMemberOf
+    (fun k w => if k = kResource then ResourceRule.resource w else .notResource w) (fun _ => rfl) resourceMember
+    resourceMember_mk .resourceShape .resourceMissing ms h5
+  obtain ⟨pr, hpr, hjp⟩ := principal_of_grammar ms h2
   have hse : slot (unitEnum effectOfName) none (valuesOf kEffect ms) = some (some e) := by
     rw [hme]; simp [slot, he]
-  refine ⟨_, by rw [statementOfMembers_eq, hrs, hse, hrc, ha, hr]; rfl, ?_⟩
+  refine ⟨_, by rw [statementOfMembers_eq, hrs, hpr, hse, ha, hr, hrc]; rfl, ?_⟩
   intro hu
   simp only [stmtNamesUnique, Bool.and_eq_true, List.all_eq_true] at hu
-  have hp := principal_of_grammar ms h2 hu.1
-  simp only [statementJson, canonStmt, pick, hp, hjs (fun _ _ => trivial), hjc hu.2, hme, ← hma, ← hmr, hje]
+  simp only [statementJson, canonStmt, pick, hjp hu.1, hjs (fun _ _ => trivial), hjc hu.2, hme, ← hma, ← hmr, hje]
   simp
 
 theorem grammar_of_statement (ms : List (Bytes × Json)) (s : Statement) (h : statementOfMembers ms = some s)
     (hq : stmtQuirk (.obj ms) = false) : stmtViol false (.obj ms) = none := by
   rw [statementOfMembers_eq] at h
   simp only [Option.bind_eq_some_iff] at h
-  obtain ⟨sid, hsid, ef, hef, co, hco, effect, heffect, action, hact, resource, hres, _⟩ := h
-  simp only [stmtQuirk, Bool.or_eq_false_iff, decide_eq_false_iff_not] at hq
-  obtain ⟨⟨⟨⟨q1, q2⟩, q3⟩, q4⟩, q5⟩ := hq
+  obtain ⟨sid, hsid, pr, hpr, ef, hef, ac, hac, re, hre, co, hco, effect, heffect, action, haction, resource,
+    hresource, _⟩ := h
+  simp only [stmtQuirk] at hq
   simp only [stmtViol, Option.or_eq_none_iff]
-  refine ⟨?_, grammar_of_principal ms q2 q3, ?_, ?_, ?_, ?_⟩
+  refine ⟨?_, grammar_of_principal ms pr hpr, ?_, ?_, ?_, ?_⟩
   · exact grammar_of_slot_opt optString (optStringValueViol .sidShape) (fun _ => True) .dupMember _
       (fun v x hx _ => (optString_some_iff _ v).mp ⟨x, hx⟩) sid hsid (fun _ _ => trivial)
   · subst heffect
     rcases (slot_none_some_iff _ _ _).mp hef with ⟨_, hh⟩ | ⟨v, x, hm, hx, _⟩
     · cases hh
-    · rw [hm] at q1 ⊢
-      simp at q1
-      simpa [exactlyOne] using grammar_of_effect v x hx q1
-  · rw [actionRuleOf_eq] at hact
-    exact grammar_of_rule kAction kNotAction _ .actionShape .actionMissing ms (by decide) (by decide) action hact q4
-  · rw [resourceRuleOf_eq] at hres
-    exact grammar_of_rule kResource kNotResource _ .resourceShape .resourceMissing ms (by decide) (by decide)
-      resource hres q5
+    · rw [hm] at hq ⊢
+      simp at hq
+      simpa [exactlyOne] using grammar_of_effect v x hx hq
+  · subst haction
+    exact grammar_of_rule kAction kNotAction actionMemberOf
+      (fun k w => if k = kAction then ActionRule.action w else .notAction w) (fun _ => rfl) .actionShape
+      .actionMissing ms action hac
+  · subst hresource
+    exact grammar_of_rule kResource kNotResource resourceMemberOf
+      (fun k w => if k = kResource then ResourceRule.resource w else .notResource w) (fun _ => rfl) .resourceShape
+      .resourceMissing ms resource hre
   · exact grammar_of_slot_opt optCondition (conditionValueViol false) (fun _ => True) .dupMember _
       (fun v x hx _ => (optCondition_some_iff v).mp ⟨x, hx⟩) co hco (fun _ _ => trivial)
 
